@@ -5,7 +5,7 @@ from engine_g import pipeline as P
 from engine_g.par_reader import read_par
 from engine_g import cfg_sat as C
 
-QUICK_SET_DIRS = ("/verif/grammars/", "/repo/examples/", "/repo/crates/parol/src/parser/", "/repo/crates/parol-ls/parol_ls.par",
+QUICK_SET_DIRS = ("/verif/grammars/", "/verif/build/gen/gram/", "/repo/examples/", "/repo/crates/parol/src/parser/", "/repo/crates/parol-ls/parol_ls.par",
                   "/repo/crates/parol/data/valid/")
 
 
